@@ -42,7 +42,7 @@ type verifCase struct {
 
 type verifResult struct {
 	Out   string `json:"out"`   // hex of the bytes the sink accepted
-	Err   string `json:"err"`   // error returned by App.Run ("" = nil)
+	Err   string `json:"err"`   // hex of the text of the error returned by App.Run ("" = nil)
 	Panic string `json:"panic"` // recovered panic + stack ("" = none)
 }
 
@@ -111,15 +111,16 @@ func verifRun(c verifCase) (res verifResult) {
 	}
 	if c.Cwd != "" {
 		if err := os.Chdir(c.Cwd); err != nil {
-			res.Err = "chdir: " + err.Error()
+			res.Err = hex.EncodeToString([]byte("chdir: " + err.Error()))
 			return
 		}
 	}
 	if err := verifApp(sink).Run(append([]string{"hranoprovod-cli"}, c.Args...)); err != nil {
-		res.Err = err.Error()
-		if res.Err == "" {
-			res.Err = "(empty error)"
+		msg := err.Error()
+		if msg == "" {
+			msg = "(empty error)"
 		}
+		res.Err = hex.EncodeToString([]byte(msg))
 	}
 	return
 }
